@@ -113,6 +113,19 @@ CHECKS.update({
              'of loader and twin builds), the mutation operators of vt/sqltok.py'),
 })
 
+
+CHECKS.update({
+    'C18': dict(
+        technique='Builds.tla enumerates every interleaving of inputs, builds and mutations on one loader; each schedule is executed on '
+                  'a real loader and validated by TLC once per built metamodel against Meta.tla (own build = LoadBuild of the rows '
+                  'accepted so far, own mutations = Meta actions, every other call = stutter)',
+        text='Independence is a statement about interleavings, so the schedules are enumerated exhaustively by the model checker '
+             '(3 chunks, 2-3 builds, 2 mutations each) and the content of every built metamodel is projected after every call of '
+             'the schedule; any leak between metamodels, or of later input into an earlier build, is a non-stutter change that no '
+             'action of the focus metamodel explains.',
+        design_ref='DESIGN.md §3.3, §4 C18', note=META_NOTE),
+})
+
 NOT_YET = {}
 
 
